@@ -145,6 +145,10 @@ def run (j : Json) : Except String Json := do
     let bn ← (← field row "n").getNat?
     let reqs ← (← (← field row "reqs").getArr?).toList.mapM rspecOfJson
     betw := betw.push (at_, bn, progOf reqs)
+  -- "raisedAt": the step calls out of which an exception of the executed event's callback escaped
+  let raisedAt : List Nat := match (fieldD j "raisedAt" (Json.arr #[])).getArr? with
+    | .ok a => a.toList.filterMap (fun x => match x.getNat? with | .ok k => some k | .error _ => none)
+    | .error _ => []
   let mut marks : Array (Nat × Nat × Int) := #[]      -- (trace length before, node, reported time)
   let mut rets : Array Json := #[]
   let mut poss : Array Json := #[]
@@ -154,7 +158,7 @@ def run (j : Json) : Except String Json := do
       if at_ == i then
         marks := marks.push (w.rtrace.length, bn, Sim.reportedTime cfg w)
         w := (Sim.runProg cfg bn prog w).1
-    let (w', r) := Sim.step cfg P w
+    let (w', r) := if raisedAt.contains i then (Sim.stepRaised cfg P w, true) else Sim.step cfg P w
     let executedOne := w'.iter > w.iter
     w := w'
     rets := rets.push (toJson r)
